@@ -134,7 +134,9 @@ CLAIMED.update({
            'partitions / stops are compared element by element with range(*slice.indices(total)) of the concatenation, for any int64 start/stop (None included); '
            'partition lengths and step are case-split (quick: <= 3 partitions, lengths 0..4, |step| <= 3; thorough: <= 4 partitions, lengths 0..5, |step| <= 5); (c) lazy arrays: '
            'ArrayGenerator::generate_and_check (declared length / form enforced, a rejected generation leaves no inferred form) and VirtualArray::array() (cache hit returned as is, '
-           'miss generates and stores, a failed generation stores nothing) with opaque generator, cache, content and forms.',
+           'miss generates and stores, a failed generation stores nothing) with opaque generator, cache, content and forms; VirtualArray::getitem_range / getitem_range_nowrap on an array with a declared length and nothing cached '
+           '(the generator is not run; the answer is a virtual array whose declared length is len(range(*slice(start, stop).indices(L))) and whose SliceGenerator holds exactly the regularised range over this very array; the whole range returns the array itself) '
+           'and SliceGenerator::generate (the stored slice, unchanged, applied to that array when data are needed).',
            'Interleavings of several operations on one cache, eviction policies (Python caches), repartition, toContent and partition.py are not addressed. Stubs: Slice/SliceRange bookkeeping, vector push_back, '
            'shared_ptr control blocks (null), string building.', 'DESIGN.md sections 3 (C18) and 9.5',
            'SMT bounded model checking of C++ method LLVM IR (llbmc M-harness, observation stubs for opaque partitions); native test-double replay'),
